@@ -28,7 +28,7 @@ var recPktClient = ev.New("C04", "packet-client",
 		"followed), bad packets rejected, same datagram never delivered twice, and a twin universe that never sees the bad packets gives the "+
 		"same verdicts. Non-trivial: duplicate + out-of-order in-window + 64-bit block crossing in one session; distinct key = config + verdict string").
 	Require("dup", "ooo-in-window", "block-cross", "forged-bad", "first-session", "change-accepted", "change-refused",
-		"old-replay-rejected", "bad-wrong-csid", "bad-wrong-type", "bad-stale-ts", "stale-by-clock", "fresh-after-bad")
+		"old-replay-rejected", "bad-wrong-csid", "bad-wrong-type", "bad-stale-ts", "stale-by-clock", "fresh-after-bad", "default-size", "default-size-ooo-in-window")
 
 const (
 	mustReject = iota
@@ -412,6 +412,12 @@ func runClientPlan(c pcfg, plan []step) (res pktResult) {
 	}
 	if c.Hi {
 		res.labels["hi-id-case"] = true
+	}
+	if c.Default {
+		res.labels["default-size"] = true
+		if ooo {
+			res.labels["default-size-ooo-in-window"] = true
+		}
 	}
 	res.nt = dup && ooo && cross
 	return res
